@@ -8,6 +8,8 @@
 //!   receivers  the server `TcpTransport` (hook `verif_chunk` = `process_chunk`), the client `TransportState`
 //!              (`handle_incoming_message`), and `Chunker::{validate_chunks, decode}` called directly ("fn": fed with
 //!              the same chunks as the server transport, keeping `last + 1` as both transports do).
+//! Both senders have max_chunk_count 3 and max_message_size 40000: a message of size class 4 / 5 is refused by its sender
+//! (nothing emitted) and the history goes on with the same sender objects.
 //! The adversary acts on the harness's copy of the wire (real chunk bytes); forged headers (policy None only) are
 //! made with `MessageChunk::new`.
 //!
@@ -39,7 +41,11 @@ use tokio_util::codec::Decoder;
 
 pub const CHAN: u32 = 7;
 pub const CHAN2: u32 = 9;
-const PAYLOAD: [usize; 4] = [10, 100, 9000, 18000]; // payload of a message of n chunks (index n)
+/// payload of a message of size class n (index n): 1..3 chunks; class 4 needs 4 chunks (one more than MAX_CHUNKS: refused by
+/// the send buffer), class 5 exceeds MAX_MESSAGE (refused by Chunker::encode in either sender)
+const PAYLOAD: [usize; 6] = [10, 100, 9000, 18000, 27000, 50000];
+pub const MAX_CHUNKS: usize = 3; // max_chunk_count of both senders
+pub const MAX_MESSAGE: usize = 40000; // max_message_size of both senders
 
 thread_local! {
     static SRV: Srv = Srv::new();
@@ -151,7 +157,7 @@ impl World {
         let mut cc = SecureChannel::new(st.clone(), Role::Client, DecodingOptions::default());
         configure(&mut cc, true, &policy);
         let client_channel = Arc::new(RwLock::new(cc));
-        let t = VerifTransport::new(client_channel.clone(), 16, 0, 16, CHUNK_SIZE, 0, 0);
+        let t = VerifTransport::new(client_channel.clone(), 16, 0, 16, CHUNK_SIZE, MAX_MESSAGE, MAX_CHUNKS);
         let mut conn = SRV.with(|s| s.connect());
         let _ = conn.t.verif_hello(HelloMessage::new(ENDPOINT, 65535, 65535, 0, 0));
         let server_channel = conn.t.verif_secure_channel();
@@ -173,7 +179,7 @@ impl World {
             futs: HashMap::new(),
             conn,
             server_channel,
-            writer: MessageWriter::new(65536, 0, 0),
+            writer: MessageWriter::new(65536, MAX_MESSAGE, MAX_CHUNKS),
             peer_seq: 0,
             fn_channel: fc,
             read_c2s,
@@ -203,7 +209,7 @@ impl World {
 
     fn client_send(&mut self, n: usize) -> Value {
         self.nsent += 1;
-        let msg = write_request(PAYLOAD[n.min(3)], 100 + self.nsent);
+        let msg = write_request(PAYLOAD[n.min(5)], 100 + self.nsent);
         let mut f = self.t.request(msg, Duration::from_secs(3600), true);
         let _ = poll_once(&mut f);
         let taken = {
@@ -219,7 +225,9 @@ impl World {
         let ch = ch.read();
         let sb = self.t.send_buffer();
         if let Err(e) = sb.write(id, m, &ch) {
-            return json!({"ok": false, "emits": [], "code": e.name()});
+            // refused by the send buffer: nothing was queued; the buffer stays in use for the next request
+            return json!({"ok": false, "emits": [], "code": e.name(), "lastseq": sb.verif_last_sent_sequence_number(),
+                          "queued": sb.verif_queued_chunks().len()});
         }
         let mut sink = Sink { data: Vec::new(), answer: Answer::Accept(usize::MAX), offered: Vec::new() };
         let mut fuel = 64;
@@ -256,11 +264,11 @@ impl World {
         };
         self.to_answer.remove(&r);
         self.nsent += 1;
-        let msg = write_response(PAYLOAD[n.min(3)], 100 + self.nsent);
+        let msg = write_response(PAYLOAD[n.min(5)], 100 + self.nsent);
         let sc = self.server_channel.clone();
         let sc = sc.read();
         let datas: Vec<Vec<u8>> = if self.responder == "peer" {
-            let chunks = match Chunker::encode(self.peer_seq + 1, r, 0, CHUNK_SIZE, &sc, &msg) {
+            let chunks = match Chunker::encode(self.peer_seq + 1, r, MAX_MESSAGE, CHUNK_SIZE, &sc, &msg) {
                 Ok(c) => c,
                 Err(e) => return json!({"ok": false, "emits": [], "code": e.name()}),
             };
